@@ -165,6 +165,9 @@ func (o Op) String() string {
 		s = "Flush"
 	case OpEvict:
 		s = fmt.Sprintf("Evict%s x%d", c, o.N)
+		if o.Flag == 1 {
+			s = fmt.Sprintf("EvictAllCollections x%d", o.N)
+		}
 	case OpReopen:
 		if o.Flag == 0 {
 			s = "Close+Reopen"
